@@ -455,8 +455,8 @@ def program_groups(ctx):
     groups.append({"name": "mode-interactive", "kind": "corpus", "mode": ":i", "ops": ["fold", "ranges", "opt"], "must_parse": True,
                    "sources": ["a = (1, 2)\n", "a; b = 1; c\n", "pass\n", "if a:\n    b = (1, 2)\n\n"],
                    "note": "Mode::Interactive roots (Mod::Interactive)"})
-    n_clean = 1200 if ctx.quick else 6000
-    n_full = 2000 if ctx.quick else 12000
+    n_clean = 1200 if ctx.quick else 20000
+    n_full = 2000 if ctx.quick else 40000
     r = ctx.rng("clean")
     g = RandProg(r, clean=True)
     groups.append({"name": "random-clean", "kind": "random", "sources": [g.program(r.choice([2, 3, 3, 4])) for _ in range(n_clean)],
